@@ -131,7 +131,7 @@ def sankey_cases(draw):
 
 class Sankey(Facet):
     name = "sankey"
-    examples = {"quick": 3200, "thorough": 48000}
+    examples = {"quick": 3200, "thorough": 144000}
     shards = {"quick": 16, "thorough": 16}
 
     def strategy(self, tier):
@@ -267,7 +267,7 @@ def plot_cases(draw):
 
 class Plotly(Facet):
     name = "plotly"
-    examples = {"quick": 2400, "thorough": 30000}
+    examples = {"quick": 2400, "thorough": 90000}
     shards = {"quick": 16, "thorough": 16}
 
     def strategy(self, tier):
@@ -279,7 +279,7 @@ class Plotly(Facet):
 
 class Pyplot(Facet):
     name = "pyplot"
-    examples = {"quick": 1200, "thorough": 15000}
+    examples = {"quick": 1200, "thorough": 45000}
     shards = {"quick": 16, "thorough": 16}
 
     def strategy(self, tier):
